@@ -165,6 +165,7 @@ type Sim struct {
 	MaxEmits int // emitted-datagram budget of one run (storm detector)
 	emits    int
 	overrun  bool
+	uniq     int64
 	// wallAbort: the overrun was the real-time guard, which depends on machine load and is
 	// therefore never a verdict (an endless loop that makes no controller step is caught by
 	// the watchdogs and confirmed by replay instead)
@@ -509,6 +510,20 @@ func (s *Sim) Settle() {
 		}
 	}
 }
+
+// Uniq returns d plus a small offset (< 1 µs) that is different for every call of a run.
+// Every duration the harness turns into a timer (sleeps of workload goroutines, context
+// timeouts, deadlines) goes through it: two timers that expire at the same virtual nanosecond
+// fire in an order that depends on the process's timer-heap history, which would make a run
+// depend on which runs the worker process executed before it.
+func (s *Sim) Uniq(d time.Duration) time.Duration {
+	s.uniq++
+
+	return d + time.Duration(1+(s.uniq*37)%997)*time.Nanosecond
+}
+
+// Sleep is time.Sleep(s.Uniq(d)).
+func (s *Sim) Sleep(d time.Duration) { time.Sleep(s.Uniq(d)) }
 
 // Overrun reports whether the step budget was exhausted.
 func (s *Sim) Overrun() bool { return s.overrun }
